@@ -150,7 +150,8 @@ def gen_calls(rng, R: int, n_envs: int, widen: bool):
         if rng.chance(0.25):
             stop_at = rng.randint(1, max(1, (T + n_envs - 1) // n_envs + 2))
         # `set_env(env)` in front of a later call: resets the environment at the next learn(), must not touch any clock
-        calls.append({"total": T, "reset": reset, "stop_at": stop_at, "set_env": bool(calls and rng.chance(0.3))})
+        calls.append({"total": T, "reset": reset, "stop_at": stop_at, "set_env": bool(calls and rng.chance(0.3)),
+                      "via_load": bool(calls and rng.chance(0.3))})
     return calls
 
 
@@ -348,6 +349,18 @@ def build(case, trace):
             kw.update(exploration_fraction=case["expl_fraction"], exploration_final_eps=case["expl_final"],
                       target_update_interval=case["target_update_interval"])
     model = cls("MlpPolicy", env, **kw)
+    instrument(model, case, trace)
+    # what a later `load(..., custom_objects=...)` must re-inject: the live schedule wrappers (the pickled copies would
+    # write into a pickled copy of the trace)
+    model._c12_custom = {k: kw[k] for k in ("learning_rate", "clip_range", "clip_range_vf") if callable(kw.get(k))}
+    return model, env
+
+
+def instrument(model, case, trace):
+    """observation points on a (constructed or loaded) model: optimizer steps, PPO's KL test, DQN's epsilon schedule"""
+    from stable_baselines3.common.logger import Logger
+
+    algo = case["algo"]
     model.set_logger(Logger(folder=None, output_formats=[]))
 
     def hook(name):
@@ -396,7 +409,6 @@ def build(case, trace):
             return v
 
         model.exploration_schedule = eps
-    return model, env
 
 
 def priv(model, name, conv):
@@ -453,6 +465,19 @@ def run_impl(case):
             cb = make_callback(trace, call["stop_at"])
             if call.get("set_env"):
                 model.set_env(model.get_env())
+            if call.get("via_load"):
+                # the call continues on `load(save(model), env)`: every clock (counters, target, progress, update
+                # counts) must come back from the file; the loaded model is instrumented like the constructed one
+                import io
+
+                buf = io.BytesIO()
+                custom = model._c12_custom
+                model.save(buf)
+                buf.seek(0)
+                model = type(model).load(buf, env=env, device="cpu", custom_objects=dict(custom))
+                model._c12_custom = custom
+                instrument(model, case, trace)
+                trace.clear()   # (schedule evaluations made while the model is rebuilt are not part of the call)
             model.learn(call["total"], callback=cb, reset_num_timesteps=call["reset"])
             tr = [list(e) for e in trace]
             opt_total += sum(1 for e in tr if e[0] == "op" and e[1] == "main")
@@ -873,6 +898,10 @@ def check_cases(ctx, cases):
         rep.count(f"algo:{algo}")
         rep.count(f"n_envs={case['n_envs']}")
         rep.count(f"calls={len(case['calls'])}")
+        if any(c.get("via_load") for c in case["calls"]):
+            rep.count("continues_on_load(save(model))")
+        if any(c.get("set_env") for c in case["calls"]):
+            rep.count("set_env_before_a_call")
         if algo in OFF:
             rep.count(f"unit:{case['train_freq'][1]}")
             rep.count(f"gradient_steps={case['gradient_steps']}")
